@@ -166,6 +166,11 @@ def run_case(cfg, ctx):
     return
   mv = kw.get("max_value")
   min_exp, max_exp = po2.exponent_interval(cls, kw["bits"], mv)
+  if mv is not None and mv < 2.0 ** min_exp:
+    # inconsistent configuration: max_value lies below the smallest code of the bit width, no code can honour it
+    ctx.observe("out_of_statement:max_value_below_smallest_code", {"cfg": cfg, "min_exp": min_exp})
+    ctx.skip("observation_only_configuration")
+    return
   rng = np.random.default_rng(cfg["seed"] * 31337 + cfg["idx"])
   xp = po2.probes(min_exp, max_exp, mv, rng, 256 if ctx.tier == "quick" else 2048)
   if cfg.get("observe"):
